@@ -45,10 +45,10 @@ type Obj struct {
 	Arr     []Value // KArray elements
 	SymIter Value   // own [Symbol.iterator] property (nil = absent)
 
-	Fn      *Func   // closure code
-	Env     *Env    // closure environment
-	This    Value   // lexical this for arrows
-	ThisSet bool    // arrow: captured this
+	Fn      *Func // closure code
+	Env     *Env  // closure environment
+	This    Value // lexical this for arrows
+	ThisSet bool  // arrow: captured this
 	Native  func(in *Interp, this Value, args []Value) (Value, *Abrupt)
 	FnArgs  []Value // arrow: captured arguments of the enclosing function
 	ErrName string  // KError
